@@ -2096,7 +2096,8 @@ func (d *decoderCborBytes) kArray(f *decFnInfo, rv reflect.Value) {
 	rvlen := rv.Len()
 	hasLen := containerLenS >= 0
 	if hasLen && containerLenS > rvlen {
-		halt.errorf("cannot decode into array with length: %v, less than container length: %v", any(rvlen), any(containerLenS))
+
+		d.arrayCannotExpand(rvlen, containerLenS)
 	}
 
 	var elemReset = d.h.SliceElementReset
@@ -6110,7 +6111,8 @@ func (d *decoderCborIO) kArray(f *decFnInfo, rv reflect.Value) {
 	rvlen := rv.Len()
 	hasLen := containerLenS >= 0
 	if hasLen && containerLenS > rvlen {
-		halt.errorf("cannot decode into array with length: %v, less than container length: %v", any(rvlen), any(containerLenS))
+
+		d.arrayCannotExpand(rvlen, containerLenS)
 	}
 
 	var elemReset = d.h.SliceElementReset
